@@ -95,7 +95,7 @@ def check_quote(ctx, x):
     if not ok or v != want or type(v) is not str:
         ctx.fail('evaluate(quote(x))!=x', detail=dict(det, evaluated=repr(v)[:200]))
     ok, ty = ctx.call(constant.type, q, allowed=(ConstantError,), clause='type(quote(x))')
-    if not ok or ty != constant.STRING:
+    if not ok or tname(ty) != 'STRING':
         ctx.fail('type(quote(x))!=STRING', detail=dict(det, type=repr(ty)))
     if not isinstance(x, str):
         ok, q2 = ctx.call(constant.quote, want if x is not None else None, clause='quote')
@@ -104,6 +104,15 @@ def check_quote(ctx, x):
                 ctx.fail('quote(None)!=""', detail=det)
         elif ok and q2 != q:
             ctx.fail('quote(n)!=quote(str(n))', detail=dict(det, other=q2))
+
+
+def tname(ty):
+    """the reported type as the name of one of the five documented, pairwise distinct datatypes
+    (compared by name: two module constants that are aliases of one member are not two types)"""
+    for n in ('SYMBOL', 'STRING', 'INTEGER', 'FLOAT', 'NULL'):
+        if ty is getattr(constant, n, None) and getattr(ty, 'name', None) == n:
+            return n
+    return None
 
 
 def check_atom(ctx, a):
@@ -140,11 +149,11 @@ def check_atom(ctx, a):
     ok2, ty = ctx.call(constant.type, a, allowed=(ConstantError,), clause='type')
     if ok2:
         if res == 'ok':
-            exp = {int: constant.INTEGER, float: constant.FLOAT, type(None): constant.NULL}.get(type(v))
+            exp = {int: 'INTEGER', float: 'FLOAT', type(None): 'NULL'}.get(type(v))
             if exp is None:
-                exp = constant.STRING if (isinstance(a, str) and len(a) >= 1 and a.startswith('"')
-                                          and a.endswith('"')) else constant.SYMBOL
-            if ty != exp:
+                exp = 'STRING' if (isinstance(a, str) and len(a) >= 1 and a.startswith('"')
+                                   and a.endswith('"')) else 'SYMBOL'
+            if tname(ty) != exp:
                 ctx.fail('type!=python-type-of-evaluate', detail=dict(det, value=repr(v), type=repr(ty)))
         else:
             ctx.fail('type:ok-but-evaluate-raises', detail=det)
@@ -186,7 +195,7 @@ def oracle(ctx, kind, p):
                 if ok and v is not None:
                     ctx.fail('evaluate(None)!=None', detail={'value': repr(v)})
                 ok, ty = ctx.call(constant.type, None, clause='type(None)')
-                if ok and ty != constant.NULL:
+                if ok and tname(ty) != 'NULL':
                     ctx.fail('type(None)!=NULL', detail={'type': repr(ty)})
             else:
                 check_atom(ctx, a)
